@@ -69,7 +69,7 @@ THEOREMS = [
     "C08_verbatim: apply o t = Some t' -> untouched o p = true -> entry_repr t p = Some e -> snd e <> INone -> entry_repr t' (reloc o p) = Some e  (key repr + decor, value repr + decor, container decor of every untouched entry are identical; all 17 operation kinds)",
     "C08_history_verbatim: the same along any applicable operation list",
     "C08_step_wf / C08_history_wf: no operation leaves an Item::None placeholder (no_none (abs t) is preserved)",
-    "C08_text_valid_refuted / C08_text_content_refuted_table_in_inline / _empty_container / _unpositioned_element: the text-level half is false of the model on the four known classes (witnesses replayed on the implementation)",
+    "C08_text_content_refuted_table_in_inline / _empty_container / _unpositioned_element: the text-level half is false of the model on the three known classes (witnesses replayed on the implementation); the fourth former class (comments inside the header brackets) is repaired (fd87fcd) and kept as a regression Example",
     "C08_fragment / C08_history_fragment: the print fragment (FLine: stored key path in the section + whole value; FHead: stored header key path + decor) of every untouched entry is identical after the operation",
     "C08_print_sections: display_document = root prefix ++ (per section in printing order: header fragment ++ entry fragments) ++ suffix ++ trailing",
     "C08_line_printed / C08_header_printed: every line fragment of a tree occurs in its printed text; every header fragment too unless the table is implicit without lines",
